@@ -158,7 +158,13 @@ def run(chk, repo, tier):
             rf = reader_flows(advan, trans)
             for c in found:
                 num, den = c.args[1].value, c.args[2].value
-                src, dst = ROLE.get(unparse(c.args[3])), ROLE.get(unparse(c.args[4]))
+                def role(e):
+                    # `peripherals[0]` / `odes.find_peripheral_compartments()[1]`: the k-th peripheral compartment
+                    if isinstance(e, ast.Subscript) and isinstance(e.slice, ast.Constant) and isinstance(e.slice.value, int) \
+                            and 'peripheral' in unparse(e.value).lower():
+                        return f'PERIPHERAL{e.slice.value + 1}'
+                    return ROLE.get(unparse(e))
+                src, dst = role(c.args[3]), role(c.args[4])
                 if src is None or dst is None:
                     raise AnalysisError(f'B1: unknown compartment role in {unparse(c)}')
                 edge = f'{src}>{dst}'
